@@ -312,6 +312,14 @@ def run(chk):
                 chk.known_finding("F7d", "a return under a finally clause reported its value, then the finally clause "
                                   "raised: %s" % str(res["outcome"])[:100])
                 stats["known"]["F7d"] = stats["known"].get("F7d", 0) + 1
+            elif only_value and len(problems) == 1 and problems[0].startswith("normal completion") \
+                    and has_return_under_finally(fn) and chk.is_known("F7d") \
+                    and [progrun.plain(v) for n, v in stream if n == "#value"][-1:] == [res["outcome"][1]]:
+                # the same abandoned return: the exception raised by its finally clause was swallowed further out (a
+                # with block, an enclosing handler) and the function went on to return something else
+                chk.known_finding("F7d", "a return under a finally clause reported its value, the finally clause raised, "
+                                  "the exception was swallowed further out and the function returned later: %s" % problems[0][:100])
+                stats["known"]["F7d"] = stats["known"].get("F7d", 0) + 1
             else:
                 chk.violation("oracle", "meta-event stream violates the bracket discipline: %s" % "; ".join(problems)[:300],
                               replay)
